@@ -377,18 +377,187 @@ theorem whole_nd_interp_go (macros : Option (List (Bytes × Bytes))) :
       · exact hc m h1
       · rw [h1, hty]; exact hrest m0 (List.mem_cons_self ..)
 
-theorem whole_msVerdict_nd (env : PEnv) (orc : EvalOracles) (expr : Expr) (he : wholeHasDiscard expr = false) (ms : MsgSt)
-    (ml : MatchList) (msgs : Nat → Msg) (fl : MFlags) (h : msVerdict env orc expr ms = .act ml msgs fl) : NoDiscard ml := by
-  unfold msVerdict at h
-  have h1 := whole_nd_eval (msgEnv env orc ms.path) ms.msg expr he 0 ms.msg { ml := [], flags := ms.flags }
-    (by intro m hm; cases hm)
-  generalize eval (msgEnv env orc ms.path) ms.msg expr 0 ms.msg { ml := [], flags := ms.flags } = r at h1 h
-  obtain ⟨t, est⟩ := r
+theorem whole_nd_loopT (env : Env) (root : Msg) (e : Expr)
+    (ih : ∀ (part : Nat) (m : Msg) (st : St), NoDiscard st.ml →
+      (evalT env root e part m st).AllRet fun r => NoDiscard r.2.ml)
+    (part : Nat) (ps : List Msg) :
+    ∀ (i : Nat) (st : St), NoDiscard st.ml → (evalT.loop env root e part ps i st).AllRet fun r => NoDiscard r.2.ml := by
+  induction ps with
+  | nil => intro i st h; simp only [evalT.loop]; exact h
+  | cons p rest ihp =>
+    intro i st h
+    simp only [evalT.loop]
+    refine Ask.AllRet.bind (ih _ p st h) ?_
+    rintro ⟨ev, s1⟩ h1
+    cases ev
+    · exact h1
+    · exact ihp (i + 1) s1 h1
+    · exact h1
+
+theorem whole_nd_loopBT (env : Env) (root : Msg) (e : Expr)
+    (ih : ∀ (part : Nat) (m : Msg) (st : St), NoDiscard st.ml →
+      (evalT env root e part m st).AllRet fun r => NoDiscard r.2.ml)
+    (part : Nat) (ps : List Msg) :
+    ∀ (i : Nat) (ev : Tri) (st : St), NoDiscard st.ml →
+      (evalT.loopB env root e part ps i ev st).AllRet fun r => NoDiscard r.2.ml := by
+  induction ps with
+  | nil => intro i ev st h; simp only [evalT.loopB]; exact h
+  | cons p rest ihp =>
+    intro i ev0 st h
+    simp only [evalT.loopB]
+    refine Ask.AllRet.bind (ih _ p st h) ?_
+    rintro ⟨ev, s1⟩ h1
+    cases ev
+    · exact ihp (i + 1) .match s1 h1
+    · exact ihp (i + 1) ev0 s1 h1
+    · exact h1
+
+/-- Evaluation (asking the operating system) of a tree without `discard` adds no discard entry, whatever the answers. -/
+theorem whole_nd_evalT (env : Env) (root : Msg) (e : Expr) (he : wholeHasDiscard e = false) :
+    ∀ (part : Nat) (m : Msg) (st : St), NoDiscard st.ml →
+      (evalT env root e part m st).AllRet fun r => NoDiscard r.2.ml := by
+  -- nodes handed to `eval`
+  have leaf : ∀ (e : Expr), wholeHasDiscard e = false → ∀ (part : Nat) (m : Msg) (st : St), NoDiscard st.ml →
+      (Ask.ret (eval env root e part m st) : Ask (Tri × St)).AllRet fun r => NoDiscard r.2.ml :=
+    fun e he part m st h => whole_nd_eval env root e he part m st h
+  induction e with
+  | block lno e ih =>
+    intro part m st h
+    simp only [evalT]
+    refine Ask.AllRet.bind (ih he part m st h) ?_
+    rintro ⟨ev, s1⟩ h1
+    have hrem : ∀ t, NoDiscard (matchesRemove s1.ml t).1 := fun t =>
+      whole_nd_sub h1 (fun m hm => (List.mem_filter.1 hm).1)
+    cases ev
+    · dsimp only
+      split
+      · exact hrem _
+      · split
+        · exact hrem _
+        · exact h1
+    · dsimp only
+      split
+      · exact hrem _
+      · split
+        · exact hrem _
+        · exact h1
+    · exact h1
+  | and lno l r ihl ihr =>
+    intro part m st h
+    simp only [wholeHasDiscard, Bool.or_eq_false_iff] at he
+    simp only [evalT]
+    refine Ask.AllRet.bind (ihl he.1 part m st h) ?_
+    rintro ⟨ev, s1⟩ h1
+    cases ev
+    · exact ihr he.2 part m s1 h1
+    · exact h1
+    · exact h1
+  | or lno l r ihl ihr =>
+    intro part m st h
+    simp only [wholeHasDiscard, Bool.or_eq_false_iff] at he
+    simp only [evalT]
+    refine Ask.AllRet.bind (ihl he.1 part m st h) ?_
+    rintro ⟨ev, s1⟩ h1
+    cases ev
+    · exact h1
+    · exact ihr he.2 part m s1 h1
+    · exact h1
+  | neg lno e ih =>
+    intro part m st h
+    simp only [evalT]
+    refine Ask.AllRet.bind (ih he part m st h) ?_
+    rintro ⟨ev, s1⟩ h1
+    cases ev
+    · exact whole_nd_sub h1 (fun m hm => List.mem_of_mem_take hm)
+    · exact h1
+    · exact h1
+  | mtch lno c rhs ihc ihr =>
+    intro part m st h
+    simp only [wholeHasDiscard, Bool.or_eq_false_iff] at he
+    simp only [evalT]
+    have h0 := whole_nd_append env st.ml { ty := .mtch, lno := lno, part := part } h (by intro hh; cases hh)
+    generalize matchesAppend env st.ml _ = x at h0
+    obtain ⟨ml1, f1⟩ := x
+    dsimp only at h0 ⊢
+    cases f1
+    · simp only [Bool.false_eq_true, ↓reduceIte]
+      refine Ask.AllRet.bind (ihc he.1 part m { st with ml := ml1 } h0) ?_
+      rintro ⟨ev, s1⟩ h1
+      cases ev
+      · exact ihr he.2 part m s1 h1
+      · exact h1
+      · exact h1
+    · simp only [↓reduceIte]
+      exact h0
+  | attachment lno e ih =>
+    intro part m st h
+    simp only [evalT]
+    cases getAttachments m with
+    | none => exact h
+    | some parts => exact whole_nd_loopT env root e (ih he) part parts 0 st h
+  | attBlock lno e ih =>
+    intro part m st h
+    simp only [evalT]
+    cases getAttachments m with
+    | none => exact h
+    | some parts => exact whole_nd_loopBT env root e (ih he) part parts 0 .nomatch st h
+  | date lno field cmp age =>
+    intro part m st h
+    cases field
+    · simp only [evalT]; exact leaf _ he part m st h
+    all_goals
+      simp only [evalT, ask, Ask.ask_bind, Ask.ret_bind]
+      intro a
+      dsimp only
+      split
+      · exact h
+      · split
+        · exact h
+        · exact whole_nd_regexec env .date lno part _ _ _ st h (by intro hh; cases hh)
+  | stat lno path =>
+    intro part m st h
+    simp only [evalT, ask, Ask.ask_bind, Ask.ret_bind]
+    have h0 := whole_nd_append env st.ml { ty := .stat, lno := lno, part := part, strings := [path] } h (by intro hh; cases hh)
+    generalize matchesAppend env st.ml _ = x at h0
+    obtain ⟨ml1, f1⟩ := x
+    have hd : NoDiscard ml1.dropLast := whole_nd_sub h0 (fun m hm => (List.dropLast_sublist _).subset hm)
+    dsimp only
+    repeat' (first | exact hd | (intro _; exact hd) | split)
+  | command lno argv =>
+    intro part m st h
+    simp only [evalT, ask, Ask.ask_bind, Ask.ret_bind]
+    have h0 := whole_nd_append env st.ml { ty := .command, lno := lno, part := part, strings := argv } h (by intro hh; cases hh)
+    generalize matchesAppend env st.ml _ = x at h0
+    obtain ⟨ml1, f1⟩ := x
+    have hd : NoDiscard ml1.dropLast := whole_nd_sub h0 (fun m hm => (List.dropLast_sublist _).subset hm)
+    dsimp only
+    repeat' (first | exact hd | (intro _; exact hd) | split)
+  | discard lno => simp [wholeHasDiscard] at he
+  | all lno => intro part m st h; simp only [evalT]; exact leaf _ he part m st h
+  | body lno p => intro part m st h; simp only [evalT]; exact leaf _ he part m st h
+  | header lno names p => intro part m st h; simp only [evalT]; exact leaf _ he part m st h
+  | new lno => intro part m st h; simp only [evalT]; exact leaf _ he part m st h
+  | old lno => intro part m st h; simp only [evalT]; exact leaf _ he part m st h
+  | move lno path => intro part m st h; simp only [evalT]; exact leaf _ he part m st h
+  | flag lno subdir => intro part m st h; simp only [evalT]; exact leaf _ he part m st h
+  | flags lno fl => intro part m st h; simp only [evalT]; exact leaf _ he part m st h
+  | brk lno => intro part m st h; simp only [evalT]; exact leaf _ he part m st h
+  | label lno ls => intro part m st h; simp only [evalT]; exact leaf _ he part m st h
+  | pass lno => intro part m st h; simp only [evalT]; exact leaf _ he part m st h
+  | reject lno => intro part m st h; simp only [evalT]; exact leaf _ he part m st h
+  | exec lno si bo argv => intro part m st h; simp only [evalT]; exact leaf _ he part m st h
+  | addHeader lno k v => intro part m st h; simp only [evalT]; exact leaf _ he part m st h
+
+/-- The verdict on an evaluation result without discard entry has no discard action. -/
+theorem whole_evVerdict_nd (env : PEnv) (orc : EvalOracles) (ms : MsgSt) (ev : Tri × St) (h1 : NoDiscard ev.2.ml)
+    (ml : MatchList) (msgs : Nat → Msg) (fl : MFlags) (h : evVerdict env orc ms ev = .act ml msgs fl) : NoDiscard ml := by
+  obtain ⟨t, est⟩ := ev
   cases t with
-  | error => dsimp only at h; cases h
-  | «nomatch» => dsimp only at h; cases h
+  | error => simp only [evVerdict] at h; cases h
+  | «nomatch» => simp only [evVerdict] at h; cases h
   | «match» =>
-    dsimp only at h h1
+    simp only [evVerdict] at h
+    dsimp only at h1
     generalize hmi : matchesInterpolate (msgEnv env orc ms.path) est.ml (partMsg ms.msg ms.parts) = o at h
     cases o with
     | none => dsimp only at h; cases h
@@ -400,15 +569,27 @@ theorem whole_msVerdict_nd (env : PEnv) (orc : EvalOracles) (expr : Expr) (he : 
       unfold matchesInterpolate at hmi
       exact whole_nd_interp_go _ est.ml 0 est.ml _ (ml', msgs') hmi h1 h1
 
-/-- **A rule tree without `discard` never discards** - whatever the file's name and content. -/
+theorem whole_msVerdict_nd (env : PEnv) (orc : EvalOracles) (expr : Expr) (he : wholeHasDiscard expr = false) (ms : MsgSt)
+    (ml : MatchList) (msgs : Nat → Msg) (fl : MFlags) (h : msVerdict env orc expr ms = .act ml msgs fl) : NoDiscard ml :=
+  whole_evVerdict_nd env orc ms _
+    (whole_nd_eval (msgEnv env orc ms.path) ms.msg expr he 0 ms.msg { ml := [], flags := ms.flags } (by intro m hm; cases hm))
+    ml msgs fl h
+
+theorem whole_msVerdictA_nd (env : PEnv) (orc : EvalOracles) (expr : Expr) (he : wholeHasDiscard expr = false) (ms : MsgSt)
+    (as : List SysAns) (ml : MatchList) (msgs : Nat → Msg) (fl : MFlags)
+    (h : msVerdictA env orc expr ms as = .act ml msgs fl) : NoDiscard ml :=
+  whole_evVerdict_nd env orc ms _
+    ((whole_nd_evalT (msgEnv env orc ms.path) ms.msg expr he 0 ms.msg { ml := [], flags := ms.flags }
+      (by intro m hm; cases hm)).run as) ml msgs fl h
+
+/-- **A rule tree without `discard` never discards** - whatever the file's name and content, and whatever the operating
+system answers to the questions of evaluation. -/
 theorem whole_noDiscard_of_syntax (env : PEnv) (orc : EvalOracles) (expr : Expr) (he : wholeHasDiscard expr = false) :
     WholeNoDiscard env orc expr := by
-  intro dir name c ml msgs fl hv
-  unfold verdict at hv
+  intro dir name c as ml msgs fl hv
+  unfold verdictA at hv
   split at hv
-  · split at hv
-    · exact whole_msVerdict_nd env orc expr he _ ml msgs fl hv
-    · cases hv
+  · exact whole_msVerdictA_nd env orc expr he _ as ml msgs fl hv
   · cases hv
 
 end Mdsort.Proofs
